@@ -88,6 +88,7 @@ SITES = {
     'proof::multi_proof::hash_and_compact_terminal|assert:Overflow:Sub|$1 -= 1|#1': ('reviewed', 'the loop runs at most up_layers <= skip = initial cur_layer times'),
     'proof::multi_proof::terminal_contains|call:index|[..$1.$2]|#1': ('invariant', 'vmp_depth'),
     'proof::multi_proof::terminal_contains|call:index|[..$1.$2]|#2': ('invariant', 'vmp_depth'),
+    'proof::multi_proof::verify|call:with_capacity|$1::$2($3.$4.len())|#1': ('reviewed', 'the capacity is the length of the proof\'s own `paths` Vec, which is already in memory: no larger than the input'),
     'proof::multi_proof::verify|call:index|[$1]|#1': ('reviewed', 'i ranges over 0..multi_proof.paths.len()'),
     'proof::multi_proof::verify|assert:Overflow:Sub|$1 - 1|#1': ('reviewed', 'under `if i > 0`'),
     'proof::multi_proof::verify|call:index|[$1 - 1]|#1': ('reviewed', 'under `if i > 0`, i < len'),
